@@ -498,13 +498,14 @@ namespace avel {
             auto t0 = decay(lhs);
             auto t1 = decay(rhs);
 
-            auto c0 = _mm_cmplt_epi32(t0, t1);
-            auto c1 = _mm_cmplt_epi32(t1, t0);
-            auto c2 = _mm_cmpeq_epi32(t0, t1);
-            auto c3 = _mm_slli_epi64(c0, 32);
+            // lhs < rhs iff (lhs < 0 && rhs >= 0) or (signs agree and lhs - rhs < 0)
+            auto difference = _mm_sub_epi64(t0, t1);
+            auto sign_differs = _mm_xor_si128(t0, t1);
+            auto c0 = _mm_andnot_si128(t1, t0);
+            auto c1 = _mm_andnot_si128(sign_differs, difference);
 
-            auto comparison_result = _mm_or_si128(c0, _mm_and_si128(_mm_andnot_si128(c1, c2), c3));
-            auto ret = _mm_shuffle_epi32(comparison_result, 0xf5);
+            auto comparison_result = _mm_or_si128(c0, c1);
+            auto ret = _mm_srai_epi32(_mm_shuffle_epi32(comparison_result, 0xf5), 31);
             return mask{ret};
 
             #endif
